@@ -499,9 +499,10 @@ class Ctx:
             "wall_s": round(wall, 2),
             "violations": len(self.violations) + len(self.brokens),
         }
-        with open(os.path.join(VERIF, "evidence", self.prop + ".json"), "w") as f:
-            json.dump(ev, f, indent=1, sort_keys=True)
-            f.write("\n")
+        if not self.replay:   # a replay run re-examines given cases; it is not a coverage run
+            with open(os.path.join(VERIF, "evidence", self.prop + ".json"), "w") as f:
+                json.dump(ev, f, indent=1, sort_keys=True)
+                f.write("\n")
         for key, what in sorted(self.known_hits.items()):
             print("KNOWN-FINDING: property=%s %s [%s]" % (self.prop, what, key))
         rc = 0
@@ -673,7 +674,9 @@ def standard(ctx, harness, extracted, driver_dir, rule, key_fn=None, what_fn=Non
     ok_t = True
     for what, outfile in translators:
         ok_t = translate(ctx, what, outfile) and ok_t
-    model_ok = ok_t and ctx.coq(["Extract/Extract%s.vo" % ctx.prop], what="model+extraction")
+    # a failing translator is recorded as broken; the model is still built (from the last generated
+    # files) so that the correspondence run can look for a concrete failing input
+    model_ok = ctx.coq(["Extract/Extract%s.vo" % ctx.prop], what="model+extraction")
     if model_ok:
         ctx.properties(extra_files=bridge_files)
     h = ctx.build_harness(harness)
